@@ -197,9 +197,12 @@ fn parse_side(ctx: &mut Ctx, arena: &Arena) {
 /// Long declared contents: every length 0..=80 and the counter boundaries, the first NUL at the start / middle /
 /// last byte / absent, plain ASCII or with a multi-byte character or an invalid byte next to the terminator.
 fn parse_long(ctx: &mut Ctx, small: &Arena, large: &Arena) {
-    ctx.bound("parse_long", "declared contents of every length 0..=80 and 255..257, 1023..1025, 4095..4097, 65535..65537, 2^20 + 1: first NUL at position {none, 0, len/2, len-2, len-1} x {ASCII, two-byte character right before the NUL, invalid byte before the NUL, invalid byte after the NUL, trailing space / newline before the NUL}; tag level, zero and marker padding");
+    ctx.bound("parse_long", "declared contents of every length 0..=80 and 255..257, 1023..1025, 4095..4097, 65535..65537, 2^20 + 1, 2^24 - 1..2^24 + 1 (thorough tier): first NUL at position {none, 0, len/2, len-2, len-1} x {ASCII, two-byte character right before the NUL, invalid byte before the NUL, invalid byte after the NUL, trailing space / newline before the NUL}; tag level, zero and marker padding");
     for kind in KINDS.iter() {
-        for len in (0..=80usize).chain([255, 256, 257, 1023, 1024, 1025, 4095, 4096, 4097, 65535, 65536, 65537, (1 << 20) + 1]) {
+        for len in (0..=80usize).chain([255, 256, 257, 1023, 1024, 1025, 4095, 4096, 4097, 65535, 65536, 65537, (1 << 20) + 1, (1 << 24) - 1, 1 << 24, (1 << 24) + 1]) {
+            if len > (1 << 21) && ctx.quick() {
+                continue; // 16 MiB texts: thorough tier only
+            }
             let arena = if len > 5000 { large } else { small };
             let mut nulpos: Vec<Option<usize>> = vec![None];
             for p in [0usize, len / 2, len.saturating_sub(2), len.saturating_sub(1)] {
@@ -262,7 +265,7 @@ fn build_side(ctx: &mut Ctx) {
     use multiboot2::MaybeDynSized;
     const SYMS: [&str; 6] = ["a", "\u{e9}", "\u{20ac}", "\0", " ", "\n"];
     let maxsym = if ctx.quick() { 4 } else { 6 };
-    ctx.bound("build", format!("all strings over {{a, e-acute (2 bytes), euro sign (3 bytes), NUL, space, newline}} up to {} symbols plus strings of every length 0..=300 and 1023..1025, 4095..4097, 65535..65537 (ASCII, and with a multi-byte last character), and every ASCII character plus five multi-byte ones alone / first / last / doubled / next to a space, for CommandLineTag::new, BootLoaderNameTag::new and ModuleTag::new", maxsym));
+    ctx.bound("build", format!("all strings over {{a, e-acute (2 bytes), euro sign (3 bytes), NUL, space, newline}} up to {} symbols plus strings of every length 0..=300 and 1023..1025, 4095..4097, 65535..65537, 2^24-1..2^24+1 in the thorough tier (ASCII, and with a multi-byte last character), and every ASCII character plus 23 other code points (encoding-length boundaries, BOM, zero-width / line / paragraph separators, no-break and ideographic space, case-folding specials) alone / first / last / doubled / next to a space, for CommandLineTag::new, BootLoaderNameTag::new and ModuleTag::new", maxsym));
     let mut texts: Vec<String> = Vec::new();
     for n in 0..=maxsym {
         for code in 0..6usize.pow(n as u32) {
@@ -275,7 +278,10 @@ fn build_side(ctx: &mut Ctx) {
             texts.push(s);
         }
     }
-    for n in (0..=300usize).chain([1023, 1024, 1025, 4095, 4096, 4097, 65535, 65536, 65537]) {
+    for n in (0..=300usize).chain([1023, 1024, 1025, 4095, 4096, 4097, 65535, 65536, 65537, (1 << 24) - 1, 1 << 24, (1 << 24) + 1]) {
+        if n > (1 << 21) && ctx.quick() {
+            continue; // 16 MiB texts: thorough tier only
+        }
         texts.push((0..n).map(|i| (b'A' + (i % 26) as u8) as char).collect());
         if n >= 2 {
             // the same length in bytes, ending in a two-byte character
@@ -286,7 +292,7 @@ fn build_side(ctx: &mut Ctx) {
     }
     // content-dependent handling (trimming, collapsing, case folding, escaping): every ASCII character and a few
     // multi-byte ones alone, at the start, at the end, doubled, and around a space
-    for cp in (1u32..128).chain([0xE9, 0x20AC, 0x1F600, 0xA0, 0x2028]) {
+    for cp in (1u32..128).chain([0xE9, 0x20AC, 0x1F600, 0xA0, 0x2028, 0x80, 0x85, 0xAD, 0xDF, 0x130, 0x7FF, 0x800, 0x200B, 0x2029, 0x212A, 0x3000, 0xD7FF, 0xE000, 0xFEFF, 0xFFFD, 0xFFFF, 0x10000, 0x10FFFF]) {
         let ch = char::from_u32(cp).unwrap();
         for t in [format!("{}", ch), format!("x{}", ch), format!("{}x", ch), format!("{}{}", ch, ch), format!("a {}b", ch), format!("A{}Z{}", ch, ch)] {
             texts.push(t);
@@ -294,7 +300,7 @@ fn build_side(ctx: &mut Ctx) {
     }
     for kind in KINDS.iter() {
         for text in &texts {
-            let describe = || J::obj().set("seam", "constructor").set("kind", kind.name).set("text_utf8_bytes", J::hex(text.as_bytes()));
+            let describe = || J::obj().set("seam", "constructor").set("kind", kind.name).set("text_len", text.len()).set("text_utf8_bytes_head", J::hex(&text.as_bytes()[..text.len().min(96)]));
             ctx.leaf(describe, |ctx| {
                 ctx.state_direct();
                 ctx.nontrivial();
@@ -351,7 +357,7 @@ fn build_side(ctx: &mut Ctx) {
 fn run(ctx: &mut Ctx) {
     let arena = Arena::new(2);
     parse_side(ctx, &arena);
-    let long_arena = Arena::new(300);
+    let long_arena = Arena::new(4200);
     parse_long(ctx, &arena, &long_arena);
     if !ctx.uniform() {
         build_side(ctx);
